@@ -408,11 +408,12 @@ Lemma format_iface_ok tm ps parent ss loc :
   forallb (frag_ok tm) ss = true -> forallb (frag_ok tm) (format_iface tm ps parent ss loc) = true.
 Proof.
   intros Hposs H. unfold format_iface.
-  assert (Hrw : forallb (frag_ok tm) (typename_helper :: map (fun d => PInline d (fields_repr ps ss d)) (possible ps parent)) = true).
+  assert (Hrw : forallb (frag_ok tm) (typename_helper :: flat_map (fun d => match fields_repr ps ss d with [] => [] | fs => [PInline d fs] end) (possible ps parent)) = true).
   { cbn [forallb]. apply andb_true_iff. split; [reflexivity|]. apply forallb_forall. intros x Hx.
-    apply in_map_iff in Hx as (d & <- & Hd). rewrite frag_inline. unfold frags_ok, level_ok.
+    apply in_flat_map in Hx as (d & Hd & Hx).
     pose proof (fields_repr_ok tm ps ss d H) as F. rewrite Forall_forall in F.
-    rewrite (Hposs d Hd). cbn [negb andb].
+    destruct (fields_repr ps ss d) as [|f0 fs] eqn:E; [destruct Hx|]. destruct Hx as [<-|[]].
+    rewrite frag_inline. unfold frags_ok, level_ok. rewrite (Hposs d Hd). cbn [negb andb].
     apply andb_true_iff. split.
     - destruct (tm_is_node tm d); [|reflexivity]. apply forallb_forall. intros y Hy. apply (F y Hy).
     - apply forallb_forall. intros y Hy. apply (F y Hy). }
